@@ -37,6 +37,8 @@ SPECIAL_HEADERS = {
                    "void __attribute__((ms_abi)) ms(int);\nvoid plain3(char);\n",
     "sys_c.h": "#include <stdlib.h>\n#include <stdint.h>\nstruct SysC { size_t n; uint16_t w; };\n",
     "sys_cpp.hpp": "#include <cstdlib>\n#include <cstdint>\nstruct SysCpp { std::size_t n; std::uint8_t b; };\n",
+    "has_feature.h": "#if __has_include(<demo_feature.h>)\n#include <demo_feature.h>\nstruct HasFeature { feature_t f; };\n#else\nstruct NoFeature { int n; };\n#endif\n#include <stddef.h>\nstruct Sz { size_t s; };\n",
+    "featdir/demo_feature.h": "typedef long feature_t;\n",
     "static_fn_small.h": "static inline int one(void) { return 1; }\n",
     "enums.h": "enum Color { RED, GREEN = 5, BLUE };\nenum Cold { ICE, SNOW };\nenum Other { X = 1, Y = 2 };\nstruct HasEnums { enum Color c; enum Cold d; enum Other o; };\n",
     "syntax_error.h": "struct Broken { int a; \nint oops(;\n",
@@ -53,6 +55,7 @@ def build_pool(seed, scratch, tier):
     d = os.path.join(scratch, "special")
     os.makedirs(d, exist_ok=True)
     for name, text in SPECIAL_HEADERS.items():
+        os.makedirs(os.path.dirname(os.path.join(d, name)), exist_ok=True)
         with open(os.path.join(d, name), "w") as f:
             f.write(text)
     base = ["--formatter=none", "--disable-header-comment"]
@@ -72,6 +75,15 @@ def build_pool(seed, scratch, tier):
     for nm, hdr in (("a", "includes.h"), ("b", "inc2.h"), ("c", "macros.h"), ("d", "static_fns.h")):
         add(f"depfile-shared-dir-{nm}", hdr, ["--depfile", f"@SHARED@/{nm}.d", "--output", f"@SHARED@/{nm}.rs"],
             watch=[f"@SHARED@/{nm}.d"])
+    # different wrapper files in one directory, written by overlapping generations
+    add("static-fns-wrap-shared-dir-a", "static_fns.h", ["--experimental", "--wrap-static-fns", "--wrap-static-fns-path", "@SHARED@/wa"],
+        watch=["@SHARED@/wa.c"])
+    add("static-fns-wrap-shared-dir-b", "static_fn_small.h", ["--experimental", "--wrap-static-fns", "--wrap-static-fns-path", "@SHARED@/wb"],
+        watch=["@SHARED@/wb.c"])
+    # different include-search-relevant flags (the clang executable probe must not be shared wrongly)
+    add("sys-c-isystem", "has_feature.h", ["--", "-isystem", os.path.join(d, "featdir")])
+    add("sys-c-no-isystem", "has_feature.h", [])
+    add("sys-c-nostdinc", "has_feature.h", ["--", "-nostdinc"])
     # the same wrapper path written by successive generations (history tier only:
     # two concurrent writers of one path are the caller's own race)
     add("static-fns-wrap-shared-path-big", "static_fns.h", ["--experimental", "--wrap-static-fns", "--wrap-static-fns-path", "@SHARED@/wrap"],
@@ -349,6 +361,8 @@ def run(tier, seed):
         thread_ok = [j for j in fast if not j.get("history_only")]
         contention_groups = [g for g in (
             [j for j in fast if j["id"].startswith("depfile-shared-dir")],
+            [j for j in fast if j["id"].startswith("static-fns-wrap-shared-dir")],
+            [j for j in fast if j["id"].startswith("sys-c")],
             [j for j in fast if "fallback-default-dir" in j["id"] or
              ("--clang-macro-fallback" in j["flags"] and "--clang-macro-fallback-build-dir" not in j["flags"])],
         ) if len(g) >= 2]
@@ -434,7 +448,7 @@ def run(tier, seed):
                     jobs.append(mk(anchor if rng.chance(300) else rng.pick(fast), rng))
             scns.append({"op": "c11", "threads": [jobs], "sched": None, "salt": rng.next() if rng.chance(500) else 0,
                          "hash_seed": rng.next()})
-        res = run_requests(scns, timeout=900, progress=200, cwd=cwd, env=SHIM_ENV)
+        res = run_requests(scns, timeout=240, progress=200, cwd=cwd, env=SHIM_ENV)
         for s, r in zip(scns, res):
             stats["history_scenarios"] += 1
             check_results(s, r, "history")
@@ -466,7 +480,7 @@ def run(tier, seed):
                 sched["pct_horizon"] = 200 * nt
             scns.append({"op": "c11", "threads": threads, "sched": sched, "salt": rng.next() if rng.chance(500) else 0,
                          "hash_seed": rng.next()})
-        res = run_requests(scns, timeout=900, progress=200, cwd=cwd, env=SHIM_ENV)
+        res = run_requests(scns, timeout=240, progress=200, cwd=cwd, env=SHIM_ENV)
         for s, r in zip(scns, res):
             stats["thread_scenarios"] += 1
             check_results(s, r, "threads")
@@ -594,7 +608,7 @@ EXPECTED_LABELS = ["libclang.enter", "libclang.not_loaded", "libclang.before_set
                    "codegen.before_depfile", "codegen.before_serialize_items", "codegen.before_postprocessing",
                    "fallback_tu.before_pch_save", "fallback_tu.after_pch_save", "fallback_tu.file_created",
                    "fallback_tu.created", "fallback_tu.before_reparse", "fallback_tu.drop",
-                   "sys.open-write", "sys.unlink"]
+                   "sys.open-write", "sys.unlink", "sys.spawn", "sys.wait"]
 
 
 def replay(doc):
@@ -614,6 +628,7 @@ def replay(doc):
                         os.makedirs(os.path.dirname(h), exist_ok=True)
                         if base in SPECIAL_HEADERS:
                             for name, text in SPECIAL_HEADERS.items():
+                                os.makedirs(os.path.dirname(os.path.join(os.path.dirname(h), name)), exist_ok=True)
                                 with open(os.path.join(os.path.dirname(h), name), "w") as f:
                                     f.write(text)
             r = run_requests([scn], workers=1, timeout=900, cwd=scratch, env=SHIM_ENV)[0]
